@@ -396,7 +396,8 @@ theorem indexBody_inv (x r : Bytes) (gl : GitLine) (h : indexBody x = .ok (r, gl
     ∃ o n, HexNE o ∧ HexNE n ∧
       ((x = o ++ (sDotDot ++ (n ++ 10 :: r)) ∧ gl = .index o n none) ∨
        (∃ sp ds, x = o ++ (sDotDot ++ (n ++ (sp ++ (ds ++ 10 :: r)))) ∧ (∀ c ∈ sp, isSpace c = true) ∧
-          (∀ c ∈ ds, isOct c = true) ∧ ds.length = 6 ∧ gl = .index o n (some (octVal ds)))) := by
+          (∀ c ∈ ds, isOct c = true) ∧ ds.length = 6 ∧ Stops (fun c => !isHex c) (sp ++ (ds ++ 10 :: r)) ∧
+          gl = .index o n (some (octVal ds)))) := by
   unfold indexBody at h
   obtain ⟨⟨r1, o⟩, h1, h2⟩ := bind_ok h
   simp only [] at h2
@@ -407,7 +408,7 @@ theorem indexBody_inv (x r : Bytes) (gl : GitLine) (h : indexBody x = .ok (r, gl
     have e2 := stripPrefix_inv _ _ _ hsp
     obtain ⟨⟨r3, n⟩, h3, h4⟩ := bind_ok h2
     simp only [] at h4
-    obtain ⟨e3, hn, _⟩ := parseGitHash_inv _ _ _ h3
+    obtain ⟨e3, hn, hst⟩ := parseGitHash_inv _ _ _ h3
     refine ⟨o, n, ho, hn, ?_⟩
     cases hm : parseMode r3 with
     | error e =>
@@ -429,7 +430,7 @@ theorem indexBody_inv (x r : Bytes) (gl : GitLine) (h : indexBody x = .ok (r, gl
       have := newline_inv _ _ _ h5
       obtain ⟨sp, ds, e, a1, a2, a3, _, rfl⟩ := parseMode_inv _ _ _ hm
       right
-      exact ⟨sp, ds, by rw [e1, e2, e3, e, this], a1, a2, a3, rfl⟩
+      exact ⟨sp, ds, by rw [e1, e2, e3, e, this], a1, a2, a3, by rw [e, this] at hst; exact hst, rfl⟩
 
 theorem octVal_lt6 (ds : Bytes) (h1 : ∀ c ∈ ds, isOct c = true) (h2 : ds.length = 6) : octVal ds < 8 ^ 6 := by
   have := octVal_lt ds 0 h1
@@ -441,7 +442,7 @@ theorem parseGitMetadataLine_ok (inp r : Bytes) (gl : GitLine) (h : parseGitMeta
   obtain ⟨pb, hpb, x, _, hb⟩ := git_inv inp (r, gl) h
   simp only [gitTable, List.mem_cons, List.mem_nil_iff, or_false] at hpb
   rcases hpb with rfl | rfl | rfl | rfl | rfl | rfl | rfl | rfl | rfl | rfl
-  · obtain ⟨o, n, ho, hn, h' | ⟨sp, ds, _, _, _, _, h'⟩⟩ := indexBody_inv _ _ _ hb
+  · obtain ⟨o, n, ho, hn, h' | ⟨sp, ds, _, _, _, _, _, h'⟩⟩ := indexBody_inv _ _ _ hb
     · rw [h'.2]; exact ⟨ho, hn⟩
     · rw [h']; exact ⟨ho, hn⟩
   all_goals try (rw [(skipBody_inv _ _ _ _ hb).1]; trivial)
